@@ -351,3 +351,75 @@ theorem handleThrow_layout_refines_spec (ex : Nat) (v : Val) (spOf : Nat → Nat
     | _ => exact ih vm lo k' (by simpa [encode, frameOf] using hvm) (by simpa [specAfterThrow] using hs)
 
 end GojaModel.C09.Link
+
+namespace GojaModel.C09.Link
+open GojaModel.C09 GojaModel.C09.Mech
+
+/-- The spec continuation right after a return completion entered the innermost pending finally block. -/
+def specAfterReturn (v : Val) : List Frame → Option (List Frame)
+  | [] => none
+  | f :: k =>
+    match f with
+    | .tryK _ (some _) => some (.finK (some (.ret v)) :: k)
+    | .catchK (some _) => some (.finK (some (.ret v)) :: k)
+    | _ => specAfterReturn v k
+
+/-- **State-level refinement of return dispatch.** After `enterNextFinallyFrame` the whole try stack carries the
+handler-arming pattern of the caller's frames followed by the layout of the spec continuation after the spec's unwinding
+entered the finally block: the frames above it are popped, the entered frame is left with both handlers disarmed. -/
+theorem enterNextFinallyFrame_layout_refines_spec (v : Val) (spOf : Nat → Nat) (f : TryFrame → TryFrame) (C : Nat)
+    (hf : ∀ tf, (f tf).finallyPos = tf.finallyPos ∧ (f tf).callStackLen = C ∧ (f tf).catchPos = tf.catchPos) (k : List Frame) :
+    ∀ (vm : VM) (lo : List TryFrame) (cl : List Nat) (k' : List Frame), vm.callStack.length = C →
+      vm.tryStack = lo ++ (encode spOf k).map f → specAfterReturn v k = some k' →
+      (enterNextFinallyFrameLoop [] vm.tryStack.length vm cl).2.2.tryStack.map arming
+        = (lo ++ (encode spOf k').map f).map arming := by
+  induction k with
+  | nil => intro _ _ _ _ _ _ hs; simp [specAfterReturn] at hs
+  | cons fr k ih =>
+    intro vm lo cl k' hC hvm hs
+    have fin : ∀ (cp : Int), vm.tryStack = (lo ++ (encode spOf k).map f) ++
+          [f (mkTF spOf (countTryish k) (countForOf k) (countBlk k) cp (2 * (countTryish k : Int) + 1))] →
+        k' = .finK (some (.ret v)) :: k →
+        (enterNextFinallyFrameLoop [] vm.tryStack.length vm cl).2.2.tryStack.map arming
+          = (lo ++ (encode spOf k').map f).map arming := by
+      intro cp h1 hk'
+      have hl : vm.tryStack.length = (lo ++ (encode spOf k).map f).length + 1 := by simp [h1]; omega
+      have hfp : (f (mkTF spOf (countTryish k) (countForOf k) (countBlk k) cp (2 * (countTryish k : Int) + 1))).finallyPos
+          = 2 * (countTryish k : Int) + 1 := by rw [(hf _).1]; rfl
+      rw [hl, enf_top_fin _ vm _ _ cl h1 (by rw [(hf _).2.1, hC]) (by rw [hfp]; omega)]
+      subst hk'
+      simp [arming, encode, frameOf, mkTF, (hf _).1, (hf _).2.2]
+    have skip : ∀ tf, vm.tryStack = (lo ++ (encode spOf k).map f) ++ [f tf] → tf.finallyPos = -1 → specAfterReturn v k = some k' →
+        (enterNextFinallyFrameLoop [] vm.tryStack.length vm cl).2.2.tryStack.map arming
+          = (lo ++ (encode spOf k').map f).map arming := by
+      intro tf h1 h2 h3
+      have hl : vm.tryStack.length = (lo ++ (encode spOf k).map f).length + 1 := by simp [h1]; omega
+      rw [hl, enf_top_skip _ vm _ (f tf) cl h1 (by rw [(hf tf).2.1, hC]) (by rw [(hf tf).1, h2]; omega)]
+      have := ih { (restoreStacks vm (f tf).iterLen (f tf).refLen).2 with tryStack := lo ++ (encode spOf k).map f } lo
+        (cl ++ (restoreStacks vm (f tf).iterLen (f tf).refLen).1) k' (by simpa [restoreStacks] using hC) rfl h3
+      simpa using this
+    cases fr with
+    | tryK cc fin' =>
+      cases cc with
+      | some c =>
+        cases fin' with
+        | some fb =>
+          simp only [specAfterReturn, Option.some.injEq] at hs
+          exact fin (2 * (countTryish k : Int)) (by simp [hvm, encode, frameOf]) hs.symm
+        | none => exact skip (mkTF spOf (countTryish k) (countForOf k) (countBlk k) (2 * (countTryish k : Int)) (-1)) (by simp [hvm, encode, frameOf]) rfl (by simpa [specAfterReturn] using hs)
+      | none =>
+        cases fin' with
+        | some fb =>
+          simp only [specAfterReturn, Option.some.injEq] at hs
+          exact fin (-1) (by simp [hvm, encode, frameOf]) hs.symm
+        | none => exact skip (mkTF spOf (countTryish k) (countForOf k) (countBlk k) (-1) (-1)) (by simp [hvm, encode, frameOf]) rfl (by simpa [specAfterReturn] using hs)
+    | catchK fin' =>
+      cases fin' with
+      | some fb =>
+        simp only [specAfterReturn, Option.some.injEq] at hs
+        exact fin (-1) (by simp [hvm, encode, frameOf]) hs.symm
+      | none => exact skip (mkTF spOf (countTryish k) (countForOf k) (countBlk k) (-1) (-1)) (by simp [hvm, encode, frameOf]) rfl (by simpa [specAfterReturn] using hs)
+    | finK p => exact skip (mkTF spOf (countTryish k) (countForOf k) (countBlk k) (-1) (-1)) (by simp [hvm, encode, frameOf]) rfl (by simpa [specAfterReturn] using hs)
+    | _ => exact ih vm lo cl k' hC (by simpa [encode, frameOf] using hvm) (by simpa [specAfterReturn] using hs)
+
+end GojaModel.C09.Link
